@@ -233,4 +233,279 @@ theorem lenAt (hs : env.Sane) : ∀ n, LenAt env n := by
     · intro keyed item k bs L hL
       cases k <;> simp only [skipItems, Outcome.bind_eq, Outcome.pure_eq] <;> len_tac
 
+/-! ### Eventually stable, non-`fuel` outcomes -/
+
+/-- from some budget on `f` returns one and the same outcome, and that outcome is not `.fuel` -/
+def Ev {α : Type} (f : Nat → Outcome α) : Prop := ∃ n r, r ≠ .fuel ∧ ∀ m, n ≤ m → f m = r
+
+theorem Ev.const {α : Type} {o : Outcome α} (h : o ≠ .fuel) : Ev (fun _ => o) := ⟨0, o, h, fun _ _ => rfl⟩
+
+theorem Ev.succ {α : Type} {F : Nat → Outcome α} (h : Ev (fun n => F (n + 1))) : Ev F := by
+  obtain ⟨n, r, hr, hst⟩ := h
+  refine ⟨n + 1, r, hr, fun m hm => ?_⟩
+  obtain ⟨k, rfl⟩ : ∃ k, m = k + 1 := ⟨m - 1, by omega⟩
+  exact hst k (by omega)
+
+theorem Ev.bind {α β : Type} {g : Nat → Outcome α} {h : Nat → α → Outcome β} (hg : Ev g)
+    (hh : ∀ a, (∃ n, g n = .ok a) → Ev (fun m => h m a)) : Ev (fun n => Outcome.bind (g n) (h n)) := by
+  obtain ⟨n0, r, hr, hst⟩ := hg
+  cases r with
+  | ok a =>
+    obtain ⟨n1, r1, hr1, hst1⟩ := hh a ⟨n0, hst n0 (Nat.le_refl _)⟩
+    refine ⟨max n0 n1, r1, hr1, fun m hm => ?_⟩
+    have h0 : n0 ≤ m := by omega
+    have h1 : n1 ≤ m := by omega
+    simp only [hst m h0, Outcome.bind_ok']
+    exact hst1 m h1
+  | fuel => exact absurd rfl hr
+  | err => exact ⟨n0, .err, by simp, fun m hm => by simp only [hst m hm, Outcome.bind_err']⟩
+  | panic => exact ⟨n0, .panic, by simp, fun m hm => by simp only [hst m hm, Outcome.bind_panic']⟩
+  | stuck => exact ⟨n0, .stuck, by simp, fun m hm => by simp only [hst m hm, Outcome.bind_stuck']⟩
+
+theorem next_ne_fuel (l : Int) (bs : Bytes) : next l bs ≠ .fuel := by
+  unfold next; split
+  · simp
+  · split <;> simp
+
+theorem rdVarint_ne_fuel (bs : Bytes) : rdVarint bs ≠ .fuel := by
+  unfold rdVarint; split <;> simp
+
+theorem rdInt_ne_fuel (w : Nat) (bs : Bytes) : rdInt w bs ≠ .fuel := by
+  unfold rdInt; split <;> simp
+
+theorem rdByte_ne_fuel (bs : Bytes) : rdByte bs ≠ .fuel := by
+  cases bs <;> simp [rdByte]
+
+theorem skipN_ne_fuel (l : Int) (bs : Bytes) : skipN l bs ≠ .fuel := by
+  unfold skipN
+  have := next_ne_fuel l bs
+  split <;> simp_all
+
+theorem skipVar_ne_fuel (bs : Bytes) : skipVar bs ≠ .fuel := by
+  unfold skipVar; split <;> simp
+
+theorem skipLen_ne_fuel (bs : Bytes) : skipLen bs ≠ .fuel := by
+  unfold skipLen; split
+  · exact skipN_ne_fuel _ _
+  · simp
+
+theorem Outcome.bind_ne_fuel {α β : Type} {o : Outcome α} {f : α → Outcome β}
+    (h1 : o ≠ .fuel) (h2 : ∀ a, o = .ok a → f a ≠ .fuel) : Outcome.bind o f ≠ .fuel := by
+  cases o with
+  | ok a => exact h2 a rfl
+  | fuel => exact absurd rfl h1
+  | _ => simp [Outcome.bind]
+
+theorem blockCount_ne_fuel (c : Int) (r : Bytes) : blockCount c r ≠ .fuel := by
+  unfold blockCount
+  split
+  · simp only [Outcome.bind_eq]
+    apply Outcome.bind_ne_fuel (rdVarint_ne_fuel r)
+    intro a _; simp
+  · simp
+
+theorem arrayBlockCount_ne_fuel (c : Int) (r : Bytes) (len : Nat) : arrayBlockCount c r len ≠ .fuel := by
+  unfold arrayBlockCount
+  apply Outcome.bind_ne_fuel
+  · split
+    · apply Outcome.bind_ne_fuel (rdVarint_ne_fuel r)
+      intro a _; simp
+    · simp
+  · intro a _; split <;> simp
+
+/-- `read` and `skip` of codec `c` terminate on every input -/
+structure Halts (c : Codec) : Prop where
+  read : ∀ bs dst, Ev (fun n => read env n c bs dst)
+  skip : ∀ bs, Ev (fun n => skip env n c bs)
+
+/-- closes goals `Ev (fun n => …)` built from binds, ifs and matches over primitives and recursive
+calls whose termination is in the context -/
+syntax "ev_tac" : tactic
+macro_rules
+  | `(tactic| ev_tac) => `(tactic| repeat' (first
+      | exact Ev.const (by intro h; cases h)
+      | exact Ev.const (next_ne_fuel _ _)
+      | exact Ev.const (rdVarint_ne_fuel _)
+      | exact Ev.const (rdInt_ne_fuel _ _)
+      | exact Ev.const (rdByte_ne_fuel _)
+      | exact Ev.const (skipN_ne_fuel _ _)
+      | exact Ev.const (skipVar_ne_fuel _)
+      | exact Ev.const (skipLen_ne_fuel _)
+      | exact Ev.const (blockCount_ne_fuel _ _)
+      | exact Ev.const (arrayBlockCount_ne_fuel _ _ _)
+      | exact Halts.read (by assumption) _ _
+      | exact Halts.skip (by assumption) _
+      | (refine Ev.bind ?_ (fun _ _ => ?_))
+      | split))
+
+/-- `Halts` for a codec whose `read` / `skip` only call primitives and codecs known to halt -/
+syntax "halts_tac" : tactic
+macro_rules
+  | `(tactic| halts_tac) => `(tactic| (
+      constructor
+      · intro bs dst; apply Ev.succ; simp only [read, Outcome.bind_eq, Outcome.pure_eq]; ev_tac
+      · intro bs; apply Ev.succ; simp only [skip, Outcome.bind_eq, Outcome.pure_eq]; ev_tac))
+
+theorem halts_null : Halts env .null := by halts_tac
+theorem halts_bool (oe : Bool) : Halts env (.bool oe) := by halts_tac
+theorem halts_int (w : Nat) (oe : Bool) : Halts env (.int w oe) := by halts_tac
+theorem halts_float (oe : Bool) : Halts env (.float oe) := by halts_tac
+theorem halts_double (oe : Bool) : Halts env (.double oe) := by halts_tac
+theorem halts_f32double (oe : Bool) : Halts env (.f32double oe) := by halts_tac
+theorem halts_bytes (oe : Bool) : Halts env (.bytes oe) := by halts_tac
+theorem halts_string (oe : Bool) : Halts env (.string oe) := by halts_tac
+theorem halts_fixed (k : Int) : Halts env (.fixed k) := by halts_tac
+theorem halts_timeString : Halts env .timeString := by halts_tac
+theorem halts_timeLong (mult : Int) : Halts env (.timeLong mult) := by halts_tac
+theorem halts_date : Halts env .date := by halts_tac
+theorem halts_custom (cid : Nat) : Halts env (.custom cid) := by halts_tac
+
+theorem halts_unionNullString (oe : Bool) (nn : Nat) : Halts env (.unionNullString oe nn) := by
+  have := halts_string env false
+  halts_tac
+
+theorem halts_nullInner (k : NullKind) : Halts env (nullInner k) := by
+  cases k <;> simp only [nullInner]
+  · exact halts_int env _ _
+  · exact halts_bool env _
+  · exact halts_double env _
+  · exact halts_float env _
+  · exact halts_string env _
+  · exact halts_timeString env
+
+theorem halts_nullw (k : NullKind) : Halts env (.nullw k) := by
+  have := halts_nullInner env k
+  halts_tac
+
+/-! ### Loops -/
+
+/-- the item loop runs `k` times -/
+theorem ev_readItems {item : Codec} (hT : Halts env item) :
+    ∀ k bs acc, Ev (fun n => readItems env n item k bs acc)
+  | 0, bs, acc => by apply Ev.succ; simp only [readItems]; ev_tac
+  | k + 1, bs, acc => by
+    apply Ev.succ; simp only [readItems, Outcome.bind_eq]
+    refine Ev.bind (hT.read _ _) (fun _ _ => ?_)
+    exact ev_readItems hT k _ _
+
+theorem ev_readMapItems {val : Codec} (hT : Halts env val) :
+    ∀ k bs ks vs, Ev (fun n => readMapItems env n val k bs ks vs)
+  | 0, bs, ks, vs => by apply Ev.succ; simp only [readMapItems]; ev_tac
+  | k + 1, bs, ks, vs => by
+    apply Ev.succ; simp only [readMapItems, Outcome.bind_eq]
+    refine Ev.bind (Ev.const (rdVarint_ne_fuel _)) (fun _ _ => ?_)
+    split
+    · ev_tac
+    · refine Ev.bind (Ev.const (next_ne_fuel _ _)) (fun _ _ => ?_)
+      refine Ev.bind (hT.read _ _) (fun _ _ => ?_)
+      exact ev_readMapItems hT k _ _ _
+
+theorem ev_skipItems {item : Codec} (hT : Halts env item) (keyed : Bool) :
+    ∀ k bs, Ev (fun n => skipItems env n keyed item k bs)
+  | 0, bs => by apply Ev.succ; simp only [skipItems]; ev_tac
+  | k + 1, bs => by
+    apply Ev.succ; simp only [skipItems, Outcome.bind_eq, Outcome.pure_eq]
+    split
+    · refine Ev.bind (Ev.const (skipLen_ne_fuel _)) (fun _ _ => ?_)
+      refine Ev.bind (hT.skip _) (fun _ _ => ?_)
+      exact ev_skipItems hT keyed k _
+    · simp only [Outcome.bind_ok']
+      refine Ev.bind (hT.skip _) (fun _ _ => ?_)
+      exact ev_skipItems hT keyed k _
+
+/-- every block header consumes at least one byte, and the items of the block give none back:
+the block loop runs at most `bs.length` times -/
+theorem ev_readArrayBlocks (hs : env.Sane) {item : Codec} (hT : Halts env item) :
+    ∀ L bs acc, bs.length < L → Ev (fun n => readArrayBlocks env n item bs acc) := by
+  intro L
+  induction L with
+  | zero => intro bs acc h; omega
+  | succ L ih =>
+    intro bs acc hL
+    apply Ev.succ; simp only [readArrayBlocks, Outcome.bind_eq, Outcome.pure_eq]
+    refine Ev.bind (Ev.const (rdVarint_ne_fuel _)) (fun p hp => ?_)
+    obtain ⟨_, hp⟩ := hp
+    have h1 := rdVarint_lt hp
+    split
+    · ev_tac
+    · refine Ev.bind (Ev.const (arrayBlockCount_ne_fuel _ _ _)) (fun q hq => ?_)
+      obtain ⟨_, hq⟩ := hq
+      have h2 := arrayBlockCount_len _ _ _ (Nat.le_refl _) q hq
+      refine Ev.bind (ev_readItems env hT _ _ _) (fun x hx => ?_)
+      obtain ⟨n, hx⟩ := hx
+      have h3 := (lenAt env hs n).readItems _ _ _ _ _ (Nat.le_refl _) x hx
+      exact ih _ _ (by omega)
+
+theorem ev_readMapBlocks (hs : env.Sane) {val : Codec} (hT : Halts env val) :
+    ∀ L bs ks vs, bs.length < L → Ev (fun n => readMapBlocks env n val bs ks vs) := by
+  intro L
+  induction L with
+  | zero => intro bs ks vs h; omega
+  | succ L ih =>
+    intro bs ks vs hL
+    apply Ev.succ; simp only [readMapBlocks, Outcome.bind_eq, Outcome.pure_eq]
+    refine Ev.bind (Ev.const (rdVarint_ne_fuel _)) (fun p hp => ?_)
+    obtain ⟨_, hp⟩ := hp
+    have h1 := rdVarint_lt hp
+    split
+    · ev_tac
+    · refine Ev.bind (Ev.const (blockCount_ne_fuel _ _)) (fun q hq => ?_)
+      obtain ⟨_, hq⟩ := hq
+      have h2 := blockCount_len _ _ (Nat.le_refl _) q hq
+      refine Ev.bind (ev_readMapItems env hT _ _ _ _) (fun x hx => ?_)
+      obtain ⟨n, hx⟩ := hx
+      have h3 := (lenAt env hs n).readMapItems _ _ _ _ _ _ (Nat.le_refl _) x hx
+      exact ih _ _ _ (by omega)
+
+theorem ev_skipBlocks (hs : env.Sane) {item : Codec} (hT : Halts env item) (keyed : Bool) :
+    ∀ L bs, bs.length < L → Ev (fun n => skipBlocks env n keyed item bs) := by
+  intro L
+  induction L with
+  | zero => intro bs h; omega
+  | succ L ih =>
+    intro bs hL
+    apply Ev.succ; simp only [skipBlocks, Outcome.bind_eq, Outcome.pure_eq]
+    refine Ev.bind (Ev.const (rdVarint_ne_fuel _)) (fun p hp => ?_)
+    obtain ⟨_, hp⟩ := hp
+    have h1 := rdVarint_lt hp
+    split
+    · ev_tac
+    · split
+      · refine Ev.bind (Ev.const (rdVarint_ne_fuel _)) (fun q hq => ?_)
+        obtain ⟨_, hq⟩ := hq
+        have h2 := rdVarint_lt hq
+        refine Ev.bind (Ev.const (skipN_ne_fuel _ _)) (fun x hx => ?_)
+        obtain ⟨_, hx⟩ := hx
+        have h3 := skipN_len _ _ (Nat.le_refl _) x hx
+        simp only [id] at h3
+        exact ih _ (by omega)
+      · refine Ev.bind (ev_skipItems env hT keyed _ _) (fun x hx => ?_)
+        obtain ⟨n, hx⟩ := hx
+        have h3 := (lenAt env hs n).skipItems _ _ _ _ _ (Nat.le_refl _) x hx
+        simp only [id] at h3
+        exact ih _ (by omega)
+
+/-- the field loops run once per field -/
+theorem ev_skipFields : ∀ (cs : List Codec), (∀ c ∈ cs, Halts env c) → ∀ bs, Ev (fun n => skipFields env n cs bs)
+  | [], _, bs => by apply Ev.succ; simp only [skipFields]; ev_tac
+  | c :: cs, h, bs => by
+    apply Ev.succ; simp only [skipFields, Outcome.bind_eq]
+    refine Ev.bind ((h c (by simp)).skip _) (fun _ _ => ?_)
+    exact ev_skipFields cs (fun c' hc' => h c' (by simp [hc'])) _
+
+theorem ev_readFields : ∀ (cs : List Codec), (∀ c ∈ cs, Halts env c) →
+    ∀ ts bs fs, Ev (fun n => readFields env n cs ts bs fs)
+  | [], _, ts, bs, fs => by apply Ev.succ; simp only [readFields]; ev_tac
+  | c :: cs, h, [], bs, fs => by apply Ev.succ; simp only [readFields]; ev_tac
+  | c :: cs, h, none :: ts, bs, fs => by
+    apply Ev.succ; simp only [readFields, Outcome.bind_eq]
+    refine Ev.bind ((h c (by simp)).skip _) (fun _ _ => ?_)
+    exact ev_readFields cs (fun c' hc' => h c' (by simp [hc'])) _ _ _
+  | c :: cs, h, some i :: ts, bs, fs => by
+    apply Ev.succ; simp only [readFields, Outcome.bind_eq]
+    split
+    · ev_tac
+    · refine Ev.bind ((h c (by simp)).read _ _) (fun _ _ => ?_)
+      exact ev_readFields cs (fun c' hc' => h c' (by simp [hc'])) _ _ _
+
 end Avro
